@@ -29,7 +29,7 @@ SPEC = dict(
              'integrator-step-eq-one-increment', 'equation-exact-sum', 'equation-exact-out', 'equation-onestep-sum', 'equation-onestep-out',
              'pos-eq-inc-while-no-limit-active', 'closed-form-while-no-limit-active', 'seen-first-limit-activation-in-pos-inc-pair',
              'init-zero-state', 'zero-state-fields', 'zero-mid-history', 'zero-twin-bitwise', 'retune-mid-history',
-             'fuzzy-scratch-exact-size-block', 'fuzzy-configuration-untouched', 'fuzzy-gains-exact', 'fuzzy-gains-within-tolerance',
+             'fuzzy-scratch-exact-size-block', 'fuzzy-bfuzz-getter', 'fuzzy-configuration-untouched', 'fuzzy-gains-exact', 'fuzzy-gains-within-tolerance',
              'seen-fuzzy-no-set-fires', 'neuro-configuration-untouched', 'neuro-ec-bitwise', 'neuro-run-passes-setpoint',
              'neuro-run-keeps-weights', 'neuro-weight-update-onestep', 'neuro-output-onestep', 'neuro-zero-keeps-weights-clears-ec',
              'neuro-twin-weights-bitwise', 'seen-output-at-outmax', 'seen-output-at-outmin', 'seen-integrator-at-or-beyond-summax',
